@@ -14,8 +14,31 @@ def mut_str(e):
                      for m in e["mut"]) or "unchanged example"
 
 
+def replay_events(c, path):
+    """Re-run the configurations of a replay file (focus mode of the harness)."""
+    import json
+    d = json.load(open(path))
+    rep = d.get("replay", d)
+    rep = rep if isinstance(rep, list) else [rep]
+    ev = []
+    for e in rep[:6]:
+        focus = ",".join("%s=%s" % (m["f"], m["c"]) + ("" if m["c"] == "missing" else ":" + m["v"])
+                         for m in e["mut"])
+        if not focus:
+            continue
+        out, _ = c.go_harness("internal/cmd", "^TestVerifC20$", env={"VERIF_C20_FOCUS": focus, "VERIF_N": 1})
+        got = read_ndjson(out)
+        if not ev:
+            ev.append(got[0])          # the baseline
+        ev += got[1:]
+    for i, e in enumerate(ev):
+        e["id"] = i + 1
+    return ev
+
+
 def run(c: Check):
     th = c.thorough
+    replay = getattr(c, "replay_path", None)
     r = c.tlc_mc("Config", "Config_mc.cfg",
                  name="68 fields x value classes: all single and pairwise mutations of the example")
     c.cov["exhaustive"] = True
@@ -29,11 +52,16 @@ def run(c: Check):
     c.tlc_mc("Config", "Config_sanity_ecs.cfg", expect_violation="AcceptedImpliesSafe",
              name="sanity: ecs_size 0 accepted with type ecs")
 
-    env = {"VERIF_N": 6000 if th else 1500, "VERIF_REPS": 4 if th else 2}
-    out, _ = c.go_harness("internal/cmd", "^TestVerifC20$", env=env, timeout=1500 if th else 600)
-    ev = read_ndjson(out)
-    if len(ev) < 500:
-        raise Undecided("only %d configurations recorded" % len(ev))
+    if replay:
+        ev = replay_events(c, replay)
+        if len(ev) < 2:
+            raise Undecided("nothing to replay in %s" % replay)
+    else:
+        env = {"VERIF_N": 6000 if th else 1500, "VERIF_REPS": 4 if th else 2}
+        out, _ = c.go_harness("internal/cmd", "^TestVerifC20$", env=env, timeout=1500 if th else 600)
+        ev = read_ndjson(out)
+        if len(ev) < 500:
+            raise Undecided("only %d configurations recorded" % len(ev))
     base = ev[0]
     if base["mut"] or not base["accepted"] or base["unsafe"]:
         raise Undecided("the distributed example itself is not accepted and safe: %s" % base)
@@ -66,10 +94,12 @@ def run(c: Check):
             classes_seen.add((m["f"], m["c"]))
         c.count_case([(m["f"], m["c"], m["v"]) for m in e["mut"]], nontrivial=len(e["mut"]) > 0)
     cells = r.tuples("CELLS")
-    if not cells or int(cells[0][0]) != len(classes_seen):
+    if replay:
+        c.notes.append("replay of %s: %d configurations" % (replay, len(ev) - 1))
+    elif not cells or int(cells[0][0]) != len(classes_seen):
         raise Undecided("vacuous: the model has %s (field, class) cells, the harness exercised %d" % (
             cells[0][0] if cells else "?", len(classes_seen)))
-    if n_acc < 50 or n_rej < 50 or n_ex < 50:
+    if not replay and (n_acc < 50 or n_rej < 50 or n_ex < 50):
         raise Undecided("vacuous: accepted=%d rejected=%d exercised=%d" % (n_acc, n_rej, n_ex))
     c.notes.append("configurations=%d accepted=%d rejected=%d exercised=%d field/class cells=%d" % (
         len(ev), n_acc, n_rej, n_ex, len(classes_seen)))
